@@ -289,7 +289,9 @@ class _WorkerProcess:
                     for w in getattr(p, '_pool', []):
                         if getattr(w, 'proc', None) is not None:
                             w.proc._close_fds()
-                sim.in_worker += 1            # nested pools raise, call seams stay quiet
+                sim.pools = []                # this process only drives pools it creates itself
+                sim.in_worker += 1            # call seams stay quiet; nested pools raise in daemonic workers
+                sim.worker_daemonic = pool._daemonic_workers
                 import sys as _sys
                 _sys.settrace(None)
                 from . import pristine
@@ -361,13 +363,15 @@ class SimPool(mpp.Pool):
     _wrap_exception = True
 
     def __init__(self, processes=None, initializer=None, initargs=(),
-                 maxtasksperchild=None, context=None, *, sim, use_pickle=True):
+                 maxtasksperchild=None, context=None, *, sim, use_pickle=True, daemonic_workers=None):
         # mirror the attribute set the real class relies on
         self._pool = []
         self._state = mpp.INIT
         self._sim = sim
         self._use_pickle = use_pickle
-        if sim.in_worker:
+        # Pool workers are daemonic; threads and executor workers are not
+        self._daemonic_workers = bool(use_pickle) if daemonic_workers is None else daemonic_workers
+        if sim.in_worker and sim.worker_daemonic:
             raise AssertionError('daemonic processes are not allowed to have children')
         self._ordinal = len(sim.pools)
         self._job_ordinal = {}
@@ -495,6 +499,7 @@ class Sim:
         self.steps = 0
         self.seq = 0
         self.in_worker = 0
+        self.worker_daemonic = True
         self.in_step = 0
         self.log = []
         self.stats = collections.Counter()
@@ -783,10 +788,14 @@ class Sim:
             ok = p._loads(rblob)[2][0]
         else:
             self.in_worker += 1
+            saved_daemonic = self.worker_daemonic
+            self.worker_daemonic = p._daemonic_workers
+            w.state = 'running'         # a nested pool inside this task may drive the loop re-entrantly
             try:
                 rblob = _run_task(p, blob)
             finally:
                 self.in_worker -= 1
+                self.worker_daemonic = saved_daemonic
             ok = p._loads(rblob)[2][0] if p._use_pickle else rblob[2][0]
         lat = 0.0
         rl = self.faults.get('result_latency')
